@@ -584,7 +584,15 @@ func (s *dstate) clone(off int) *csproto.Decoder {
 }
 
 func oracleC03(c *DCase) (*ev.Failure, int) {
-	s := &dstate{in: c.In, d: csproto.NewDecoder(c.In)}
+	// the input is the first len(In) bytes of a LARGER backing array whose spare capacity holds bytes that would
+	// complete a truncated item (varint terminators): "reads outside the buffer" becomes a visible wrong answer
+	buf := make([]byte, len(c.In), len(c.In)+16)
+	copy(buf, c.In)
+	spare := buf[len(buf):cap(buf)]
+	for i := range spare {
+		spare[i] = []byte{0x01, 0x00, 0x7f, 0x02}[i%4]
+	}
+	s := &dstate{in: buf, d: csproto.NewDecoder(buf)}
 	interesting := 0
 	for _, o := range c.Prog {
 		f, in := s.step(o, true)
@@ -681,7 +689,7 @@ func genOp(t *rapid.T) Op {
 }
 
 const ruleC03 = "(a) exhaustive: every byte string of length <= 4 (quick) / <= 5 (thorough) over the wire-significant alphabet {00,01,02,05,08,0a,0d,09,7f,80,81,ff} x every exported Decode*/DecodePacked*/DecodeNested/DecodeTag/Skip(matching and non-matching) x every start offset x {safe, fast}; " +
-	"(b) rapid: a mutated valid encoding (truncation, byte overwrite, hostile length prefixes up to 2^64-1, group wire types, field number 0, non-minimal varints, splices) + a program of <= 20 decoder calls incl. Seek(any int64, any whence), Reset, SetMode; " +
+	"(every input is handed over as buf[:n] of a larger array whose spare capacity holds varint terminators) (b) rapid: a mutated valid encoding (truncation, byte overwrite, hostile length prefixes up to 2^64-1, group wire types, field number 0, non-minimal varints, splices) + a program of <= 20 decoder calls incl. Seek(any int64, any whence), Reset, SetMode; " +
 	"oracle per call: no panic, cursor in [0,len], success => cursor advanced by exactly the reference item's length and value equal, declared length beyond input => error, bytes allocated by the call <= 16 KiB + 64*len(input); " +
 	"non-trivial = the input at the cursor is not a clean complete item for the method called, or the program contains a Seek/mode switch; distinct by (input, program) or (input, method, offset, mode)"
 
